@@ -1,4 +1,6 @@
 import JominiModel.Proofs.TextDocFull
+import JominiModel.Proofs.TextTapeScalars
+import JominiModel.Proofs.TextTapeWf
 /-
 C01_faithful_full / C01_layout_independent_full: the layout-free content of a full document
 (`dtapeF`: its position-free tape; `stripF`: the document without its layout — gaps, ghost
@@ -152,6 +154,17 @@ theorem faithful_full_bom (fs : FFields) (gt : Bytes) (hgt : Blank gt) (hv : FVa
     ∃ T, parse (0xef :: 0xbb :: 0xbf :: (frenderF fs ++ gt)) = .ok T true ∧ T.map Tok.erase = dtapeF fs 0 := by
   refine ⟨ftapeF fs 0 gt, ?_, ftapeF_erase fs 0 gt⟩
   rw [parse_bom' _ hb, parse_full fs gt hgt hv hb]; rfl
+
+/-- C06 at the document level: the expected tape `ftapeF d` of every valid document of the full
+document type is structurally sound (links both ways, nesting, every scalar the sub-slice of the
+input at its offset, offsets increasing) over the document's bytes, and passes the executable
+checker the correspondence check runs on the real parser's tapes — from faithfulness
+(`parse_full`) and `C06_text_inv`. -/
+theorem C06_full_doc_tape_sound (fs : FFields) (gt : Bytes) (hgt : Blank gt) (hv : FValidF fs gt)
+    (hb : hasBom (frenderF fs ++ gt) = false) :
+    WfTextTape (frenderF fs ++ gt) (ftapeF fs 0 gt) ∧ wfTextTape (frenderF fs ++ gt) (ftapeF fs 0 gt) = true := by
+  have hw := C06_text_inv _ _ _ (parse_full fs gt hgt hv hb)
+  exact ⟨hw, (C06_text_checker_sound _ _).mpr hw⟩
 
 /-! ### the document without its layout -/
 
